@@ -2,7 +2,11 @@ package main
 
 import (
 	"encoding/json"
+	"errors"
 	"fmt"
+
+	"github.com/trustbloc/sidetree-core-go/pkg/dochandler"
+	"github.com/trustbloc/sidetree-core-go/pkg/processor"
 
 	"github.com/trustbloc/sidetree-core-go/pkg/api/protocol"
 	"github.com/trustbloc/sidetree-core-go/pkg/document"
@@ -86,10 +90,12 @@ func checkC02(c *hx.Ctx) {
 			{"C", "u01", "uF", "u12", "u20"},
 			{"C", "u01", "u02", "r01", "u12", "d1"},
 			{"Cdup", "C", "u01", "r01"},
+			{"C", "uI", "u01", "u12"},   // an earlier competitor whose delta fails protocol validation does not consume the commitment
+			{"C", "uM", "u02", "rI", "r01"}, // mismatching update / invalid recover delta as earlier competitors
 		}
 		labels := append([]string{}, hx.Pick(r, pools)...)
 		for len(labels) < 3+r.Intn(5) {
-			labels = append(labels, hx.Pick(r, []string{"u01", "u02", "u12", "u20", "u10", "r01", "rB", "r12", "d0", "d1", "uS", "uF", "Cdup", "rS"}))
+			labels = append(labels, hx.Pick(r, []string{"u01", "u02", "u12", "u20", "u10", "r01", "rB", "r12", "d0", "d1", "uS", "uF", "Cdup", "rS", "uI", "uM", "rI"}))
 		}
 		// coordinates: small ranges so that equal times / equal numbers and disagreeing orders are frequent
 		used := map[[2]uint64]bool{}
@@ -194,6 +200,49 @@ func checkC02(c *hx.Ctx) {
 				c.Count("additional_operation_splits")
 			}
 		}
+		// anchored history takes precedence over the unpublished create carried by a long-form DID, also when the anchored
+		// history cannot be read (an error is the answer then, not the carried create presented as an unpublished DID)
+		if i%4 == 0 {
+			var firstCreate *ref.Op
+			for _, o := range ref.Order(ops) {
+				if o.Type == "create" && o.Published() && o.Label == "C" {
+					firstCreate = o
+					break
+				}
+			}
+			if firstCreate != nil {
+				var init map[string]interface{}
+				_ = json.Unmarshal(firstCreate.Request, &init)
+				delete(init, "type")
+				long := hx.Namespace + ":" + u.Suffix + ":" + ref.B64(ref.MustJCS(init))
+				var pub []*ref.Op
+				for _, o := range ops {
+					if o.Published() {
+						pub = append(pub, o)
+					}
+				}
+				lstore := hx.NewOpStore()
+				lstore.Set(u.Suffix, ToAnchored(u.Suffix, pub))
+				lenient := hx.NewClient(hx.NewVersion(p, hx.VersionOpts{}))
+				ldh := dochandler.New(hx.Namespace, nil, lenient, &hx.RecWriter{}, processor.New("verif", lstore, pc), hx.NopMetrics{})
+				c.Eval()
+				okRes, okErr := ldh.ResolveDocument(long)
+				lstore.GetErr = func(string) error { return errors.New("injected store read failure") }
+				res, err := ldh.ResolveDocument(long)
+				if okErr == nil && okRes != nil && err == nil && res != nil {
+					mdOK, _ := roundTrip(okRes.DocumentMetadata).(map[string]interface{})
+					md, _ := roundTrip(res.DocumentMetadata).(map[string]interface{})
+					mOK, _ := mdOK["method"].(map[string]interface{})
+					m, _ := md["method"].(map[string]interface{})
+					if mOK["published"] == true && m["published"] != true {
+						c.Violation("C02 while the operation store cannot be read, the long-form DID of an anchored DID is answered from its carried (unpublished) create request instead of an error: ops=["+histString(ops)+"]",
+							map[string]interface{}{"did": long, "ops": replayOps(ops), "metadata": md})
+						return
+					}
+				}
+				c.Count("long_form_of_anchored_did_with_store_fault")
+			}
+		}
 		c.CountN("orders_tried", len(orders))
 		if nUnpub > 0 {
 			c.Count("sets_with_unpublished_competitor")
@@ -222,6 +271,7 @@ func checkC02(c *hx.Ctx) {
 	c.Floor("sets_with_unpublished_competitor", 20)
 	c.Floor("additional_operation_splits", 100)
 	c.Floor("sets_with_unpublished_create", 20)
+	c.Floor("long_form_of_anchored_did_with_store_fault", 50)
 }
 
 // c02TwoVersions: competitors for one commitment anchored under different protocol versions whose parser rules differ.
